@@ -1,1 +1,711 @@
-(* Front/TagsProofs.v -- stub, to be filled *)
+(* Front/TagsProofs.v -- proofs about the tag / SET-ordering model (property C16). *)
+From A1 Require Import Front.Tags Gen.TagConsts.
+From Coq Require Import Sorting.Permutation Sorting.Sorted.
+Require Import ZifyBool ZifyNat ZifyN.
+Local Open Scope N_scope.
+
+(* ------------------------------------------------------------------------- *)
+(** * The derived order of [Tag] is the canonical order of X.680 8.6 *)
+
+(* X.680 8.6: "universal class first, then application, context-specific, private; within a class ascending
+   tag number" -- written down without reference to the generated variant order *)
+Definition x680_class_index (c : tclass) : nat :=
+  match c with Universal => 0 | Application => 1 | ContextSpecific => 2 | Private => 3 end.
+Definition x680_lt (a b : tag) : Prop :=
+  (x680_class_index (fst a) < x680_class_index (fst b))%nat \/ (fst a = fst b /\ snd a < snd b).
+Definition x680_le (a b : tag) : Prop := x680_lt a b \/ a = b.
+
+(* proved by computation against Gen/TagConsts.v: reordering the variants of `enum Tag` breaks it *)
+Lemma class_rank_is_x680 c : class_rank c = x680_class_index c.
+Proof. destruct c; vm_compute; reflexivity. Qed.
+
+Lemma x680_class_index_inj a b : x680_class_index a = x680_class_index b -> a = b.
+Proof. destruct a, b; simpl; intros H; try reflexivity; discriminate. Qed.
+
+Lemma tag_cmp_spec a b :
+  match tag_cmp a b with Lt => x680_lt a b | Eq => a = b | Gt => x680_lt b a end.
+Proof.
+  destruct a as [ca na], b as [cb nb]. unfold tag_cmp, x680_lt. cbn [fst snd].
+  rewrite !class_rank_is_x680.
+  destruct (Nat.compare_spec (x680_class_index ca) (x680_class_index cb)) as [Hc|Hc|Hc].
+  - apply x680_class_index_inj in Hc. subst cb.
+    destruct (N.compare_spec na nb) as [Hn|Hn|Hn].
+    + subst. reflexivity.
+    + right. split; [reflexivity|exact Hn].
+    + right. split; [reflexivity|exact Hn].
+  - left. exact Hc.
+  - left. exact Hc.
+Qed.
+
+Lemma x680_lt_asym a b : x680_lt a b -> x680_lt b a -> False.
+Proof.
+  unfold x680_lt. intros [H1|[H1 H1']] [H2|[H2 H2']]; try lia.
+  - rewrite H2 in H1. lia.
+  - rewrite H1 in H2. lia.
+Qed.
+Lemma x680_lt_irrefl a : x680_lt a a -> False.
+Proof. intros H. exact (x680_lt_asym a a H H). Qed.
+
+Lemma tag_le_is_x680_le a b : tag_le a b = true <-> x680_le a b.
+Proof.
+  unfold tag_le, x680_le. pose proof (tag_cmp_spec a b) as H.
+  destruct (tag_cmp a b); cbn [not_gt]; split; intros H0; auto; try discriminate.
+  exfalso. destruct H0 as [H0|H0].
+  - exact (x680_lt_asym _ _ H0 H).
+  - subst b. exact (x680_lt_irrefl _ H).
+Qed.
+
+Lemma tag_cmp_eq a b : tag_cmp a b = Eq -> a = b.
+Proof. intros H. pose proof (tag_cmp_spec a b) as S. rewrite H in S. exact S. Qed.
+Lemma tag_cmp_refl a : tag_cmp a a = Eq.
+Proof. unfold tag_cmp. rewrite Nat.compare_refl. apply N.compare_refl. Qed.
+Lemma tag_cmp_gt_lt a b : tag_cmp a b = Gt -> tag_cmp b a = Lt.
+Proof.
+  intros H. pose proof (tag_cmp_spec a b) as S. rewrite H in S.
+  pose proof (tag_cmp_spec b a) as S'. destruct (tag_cmp b a); auto.
+  - subst. exfalso. exact (x680_lt_irrefl _ S).
+  - exfalso. exact (x680_lt_asym _ _ S S').
+Qed.
+
+Lemma otag_cmp_refl a : otag_cmp a a = Eq.
+Proof. destruct a; simpl; auto using tag_cmp_refl. Qed.
+Lemma otag_cmp_eq a b : otag_cmp a b = Eq -> a = b.
+Proof. destruct a, b; simpl; intros H; try discriminate; auto. f_equal. apply tag_cmp_eq, H. Qed.
+Lemma otag_cmp_gt_lt a b : otag_cmp a b = Gt -> otag_cmp b a = Lt.
+Proof. destruct a, b; simpl; intros H; try discriminate; auto using tag_cmp_gt_lt. Qed.
+
+Lemma key_cmp_refl k : key_cmp k k = Eq.
+Proof. destruct k as [b t]. unfold key_cmp. cbn [fst snd]. destruct b; simpl; apply otag_cmp_refl. Qed.
+Lemma key_cmp_eq a b : key_cmp a b = Eq -> a = b.
+Proof.
+  destruct a as [b1 t1], b as [b2 t2]. unfold key_cmp. cbn [fst snd].
+  destruct b1, b2; simpl; intros H; try discriminate; f_equal; apply otag_cmp_eq, H.
+Qed.
+Lemma key_cmp_gt_lt a b : key_cmp a b = Gt -> key_cmp b a = Lt.
+Proof.
+  destruct a as [b1 t1], b as [b2 t2]. unfold key_cmp. cbn [fst snd].
+  destruct b1, b2; simpl; intros H; try discriminate; auto using otag_cmp_gt_lt.
+Qed.
+
+(* ------------------------------------------------------------------------- *)
+(** * The stable insertion sort *)
+
+Section SortFacts.
+  Context {A : Type} (cmp : A -> A -> comparison).
+  Definition cle (a b : A) : Prop := cmp a b <> Gt.
+
+  Lemma insert_perm x l : Permutation (insert cmp x l) (x :: l).
+  Proof.
+    induction l as [|y l IH]; simpl; [reflexivity|].
+    destruct (cmp x y); try reflexivity.
+    rewrite IH. apply perm_swap.
+  Qed.
+  Lemma sort_by_perm l : Permutation (sort_by cmp l) l.
+  Proof.
+    induction l as [|x l IH]; simpl; [constructor|].
+    rewrite insert_perm. constructor. exact IH.
+  Qed.
+  Lemma sort_by_length l : length (sort_by cmp l) = length l.
+  Proof. apply Permutation_length, sort_by_perm. Qed.
+
+  Hypothesis cmp_gt_le : forall a b, cmp a b = Gt -> cmp b a <> Gt.
+
+  Lemma insert_sorted x l : Sorted cle l -> Sorted cle (insert cmp x l).
+  Proof.
+    induction l as [|y l IH]; simpl; intros Hs.
+    - repeat constructor.
+    - destruct (cmp x y) eqn:E.
+      + constructor; [exact Hs|]. constructor. unfold cle. rewrite E. discriminate.
+      + constructor; [exact Hs|]. constructor. unfold cle. rewrite E. discriminate.
+      + inversion Hs as [|? ? Hs' Hhd]; subst. constructor; [apply IH, Hs'|].
+        destruct l as [|z l]; simpl.
+        * constructor. apply cmp_gt_le, E.
+        * destruct (cmp x z) eqn:E2.
+          -- constructor. apply cmp_gt_le, E.
+          -- constructor. apply cmp_gt_le, E.
+          -- inversion Hhd; subst. constructor. assumption.
+  Qed.
+  Lemma sort_by_sorted l : Sorted cle (sort_by cmp l).
+  Proof. induction l as [|x l IH]; simpl; [constructor|]. apply insert_sorted, IH. Qed.
+
+  (* a list that is already in order (ties included) is left alone *)
+  Lemma sort_by_id l : Sorted cle l -> sort_by cmp l = l.
+  Proof.
+    induction l as [|x l IH]; simpl; intros Hs; [reflexivity|].
+    inversion Hs as [|? ? Hs' Hhd]; subst. rewrite (IH Hs').
+    destruct l as [|y l]; simpl; [reflexivity|].
+    inversion Hhd as [|? ? Hle]; subst. unfold cle in Hle. destruct (cmp x y); congruence.
+  Qed.
+
+  (* stability: elements that compare as equal with each other keep their input order *)
+  Lemma insert_stable (p : A -> bool) x l :
+    (forall a b, p a = true -> p b = true -> cmp a b <> Gt) ->
+    filter p (insert cmp x l) = filter p (x :: l).
+  Proof.
+    intros Hp. induction l as [|y l IH]; simpl; [reflexivity|].
+    destruct (cmp x y) eqn:E; try reflexivity.
+    cbn [filter]. rewrite IH. cbn [filter].
+    destruct (p x) eqn:Px, (p y) eqn:Py; try reflexivity.
+    exfalso. exact (Hp x y Px Py E).
+  Qed.
+  Lemma sort_by_stable (p : A -> bool) l :
+    (forall a b, p a = true -> p b = true -> cmp a b <> Gt) ->
+    filter p (sort_by cmp l) = filter p l.
+  Proof.
+    intros Hp. induction l as [|x l IH]; simpl; [reflexivity|].
+    rewrite (insert_stable p x _ Hp). cbn [filter]. rewrite IH. reflexivity.
+  Qed.
+End SortFacts.
+
+(* sorting a list made of a block of [false]-flagged elements followed by [true]-flagged ones sorts each
+   block on its own *)
+Section TwoBlocks.
+  Context {A : Type} (cmp : A -> A -> comparison) (flag : A -> bool).
+  Hypothesis flag_lt : forall a b, flag a = false -> flag b = true -> cmp a b = Lt.
+  Hypothesis flag_gt : forall a b, flag a = true -> flag b = false -> cmp a b = Gt.
+
+  Lemma insert_low x l1 l2 :
+    flag x = false -> Forall (fun a => flag a = true) l2 ->
+    insert cmp x (l1 ++ l2) = insert cmp x l1 ++ l2.
+  Proof.
+    intros Hx H2. induction l1 as [|y l1 IH]; simpl.
+    - destruct l2 as [|z l2]; simpl; [reflexivity|].
+      inversion H2; subst. rewrite (flag_lt x z Hx); auto.
+    - destruct (cmp x y); try reflexivity. simpl. rewrite IH. reflexivity.
+  Qed.
+  Lemma insert_high x l1 l2 :
+    flag x = true -> Forall (fun a => flag a = false) l1 ->
+    insert cmp x (l1 ++ l2) = l1 ++ insert cmp x l2.
+  Proof.
+    intros Hx H1. induction l1 as [|y l1 IH]; simpl; [reflexivity|].
+    inversion H1; subst. rewrite (flag_gt x y Hx); auto. rewrite IH; auto.
+  Qed.
+
+  Lemma sort_by_forall (P : A -> Prop) l : Forall P l -> Forall P (sort_by cmp l).
+  Proof.
+    intros H. rewrite Forall_forall in *. intros a Ha. apply H.
+    apply (Permutation_in _ (sort_by_perm cmp l)), Ha.
+  Qed.
+
+  Lemma sort_by_two_blocks l1 l2 :
+    Forall (fun a => flag a = false) l1 -> Forall (fun a => flag a = true) l2 ->
+    sort_by cmp (l1 ++ l2) = sort_by cmp l1 ++ sort_by cmp l2.
+  Proof.
+    intros H1 H2. induction l1 as [|x l1 IH]; simpl; [reflexivity|].
+    inversion H1; subst. rewrite IH by assumption.
+    apply insert_low; [assumption|]. apply sort_by_forall, H2.
+  Qed.
+End TwoBlocks.
+
+(* sorting commutes with an injection that preserves the comparison *)
+Lemma insert_map {A B} (cmpA : A -> A -> comparison) (cmpB : B -> B -> comparison) (g : A -> B) x l :
+  (forall a b, cmpB (g a) (g b) = cmpA a b) ->
+  insert cmpB (g x) (map g l) = map g (insert cmpA x l).
+Proof.
+  intros H. induction l as [|y l IH]; simpl; [reflexivity|].
+  rewrite H. destruct (cmpA x y); try reflexivity. simpl. rewrite IH. reflexivity.
+Qed.
+Lemma sort_by_map {A B} (cmpA : A -> A -> comparison) (cmpB : B -> B -> comparison) (g : A -> B) l :
+  (forall a b, cmpB (g a) (g b) = cmpA a b) ->
+  sort_by cmpB (map g l) = map g (sort_by cmpA l).
+Proof.
+  intros H. induction l as [|x l IH]; simpl; [reflexivity|].
+  rewrite IH. apply insert_map, H.
+Qed.
+
+(* ------------------------------------------------------------------------- *)
+(** * sort_fields_canonically *)
+
+(* what the function stores in a field before sorting *)
+Definition fill (f : rfield) : rfield := with_tag f (sort_tag f).
+(* comparison of two fields of the same group *)
+Definition ftag_cmp (f g : rfield) : comparison := otag_cmp (rf_tag f) (rf_tag g).
+Definition ftag_le (f g : rfield) : Prop := ftag_cmp f g <> Gt.
+
+(* number of fields in front of the first extension addition *)
+Definition root_count (ext_after : option nat) (n : nat) : nat :=
+  match ext_after with None => n | Some after => Nat.min (S after) n end.
+
+Lemma sort_prepare_spec ext l r :
+  sort_prepare ext l = Ok r ->
+  r = map (fun p => (is_addition ext (fst p), fill (snd p))) l /\
+  Forall (fun p => sort_tag (snd p) <> None) l.
+Proof.
+  revert r. induction l as [|[i f] l IH]; simpl; intros r H.
+  - inversion H; subst. split; constructor.
+  - destruct (sort_tag f) as [t|] eqn:E; [|discriminate].
+    destruct (sort_prepare ext l) as [r'| |] eqn:E2; simpl in H; try discriminate.
+    inversion H; subst. destruct (IH r' eq_refl) as [-> HF]. split.
+    + unfold fill. rewrite E. reflexivity.
+    + constructor; [simpl; congruence|exact HF].
+Qed.
+
+Lemma sort_prepare_ok ext l :
+  Forall (fun p => sort_tag (snd p) <> None) l -> exists r, sort_prepare ext l = Ok r.
+Proof.
+  induction l as [|[i f] l IH]; simpl; intros H; [eauto|].
+  inversion H as [|? ? Hf Hl]; subst. simpl in Hf.
+  destruct (sort_tag f); [|congruence]. destruct (IH Hl) as [r ->]. simpl. eauto.
+Qed.
+
+Lemma enumerate_from_app {A} i (l1 l2 : list A) :
+  enumerate_from i (l1 ++ l2) = enumerate_from i l1 ++ enumerate_from (i + length l1) l2.
+Proof.
+  revert i. induction l1 as [|x l1 IH]; intros i; simpl.
+  - rewrite Nat.add_0_r. reflexivity.
+  - rewrite IH. do 3 f_equal. lia.
+Qed.
+Lemma enumerate_from_snd {A} i (l : list A) : map snd (enumerate_from i l) = l.
+Proof. revert i. induction l; intros; simpl; congruence. Qed.
+Lemma enumerate_from_fst {A} i (l : list A) : map fst (enumerate_from i l) = seq i (length l).
+Proof. revert i. induction l; intros; simpl; congruence. Qed.
+Lemma enumerate_from_bounds {A} i (l : list A) :
+  Forall (fun p => (i <= fst p < i + length l)%nat) (enumerate_from i l).
+Proof.
+  revert i. induction l as [|x l IH]; intros i; simpl; constructor.
+  - simpl. lia.
+  - eapply Forall_impl; [|apply IH]. simpl. intros. lia.
+Qed.
+
+Lemma field_cmp_same_flag b f g : field_cmp (b, f) (b, g) = ftag_cmp f g.
+Proof. unfold field_cmp, field_key, key_cmp, ftag_cmp. cbn [fst snd]. destruct b; reflexivity. Qed.
+
+Lemma firstn_skipn_map {A B} (g : A -> B) n l :
+  map g l = map g (firstn n l) ++ map g (skipn n l).
+Proof. rewrite <- map_app, firstn_skipn. reflexivity. Qed.
+
+(* the shape of the result: the root fields sorted by tag, then the additions sorted by tag *)
+Theorem sort_fields_canonically_shape fs ext out :
+  sort_fields_canonically fs ext = Ok out ->
+  let filled := map fill fs in
+  let nroot := root_count ext (length fs) in
+  out = sort_by ftag_cmp (firstn nroot filled) ++ sort_by ftag_cmp (skipn nroot filled)
+  /\ Forall (fun f => sort_tag f <> None) fs.
+Proof.
+  unfold sort_fields_canonically. intros H.
+  destruct (sort_prepare ext (enumerate fs)) as [r| |] eqn:E; simpl in H; try discriminate.
+  inversion H; subst out; clear H.
+  destruct (sort_prepare_spec _ _ _ E) as [-> HF]. cbv zeta. split.
+  2:{ unfold enumerate in HF. rewrite Forall_forall in *. intros f Hf.
+      rewrite <- (enumerate_from_snd O fs) in Hf. apply in_map_iff in Hf.
+      destruct Hf as [p [<- Hp]]. apply HF, Hp. }
+  set (nroot := root_count ext (length fs)).
+  (* split the enumerated list at nroot *)
+  unfold enumerate. rewrite <- (firstn_skipn nroot fs) at 1.
+  rewrite enumerate_from_app, map_app. cbn [Nat.add].
+  set (l1 := firstn nroot fs). set (l2 := skipn nroot fs).
+  assert (Hlen1 : length l1 = nroot).
+  { unfold l1. rewrite firstn_length. unfold nroot, root_count. destruct ext; lia. }
+  assert (H1 : map (fun p => (is_addition ext (fst p), fill (snd p))) (enumerate_from 0 l1)
+               = map (pair false) (map fill l1)).
+  { rewrite map_map. rewrite <- (enumerate_from_snd 0 l1) at 2. rewrite map_map.
+    apply map_ext_in. intros p Hp.
+    pose proof (enumerate_from_bounds 0 l1) as HB. rewrite Forall_forall in HB. specialize (HB p Hp).
+    f_equal. unfold is_addition. destruct ext as [after|]; [|reflexivity].
+    apply Nat.ltb_ge. unfold nroot, root_count in Hlen1. lia. }
+  assert (H2 : map (fun p => (is_addition ext (fst p), fill (snd p))) (enumerate_from (length l1) l2)
+               = map (pair true) (map fill l2)).
+  { rewrite map_map. rewrite <- (enumerate_from_snd (length l1) l2) at 2. rewrite map_map.
+    apply map_ext_in. intros p Hp.
+    pose proof (enumerate_from_bounds (length l1) l2) as HB. rewrite Forall_forall in HB. specialize (HB p Hp).
+    f_equal. unfold is_addition. destruct ext as [after|].
+    - apply Nat.ltb_lt. unfold nroot, root_count in Hlen1.
+      destruct l2 as [|z l2'] eqn:El2; [destruct Hp|].
+      assert (length l1 + length l2 = length fs)%nat.
+      { unfold l1, l2. rewrite <- app_length, firstn_skipn. reflexivity. }
+      rewrite El2 in H. simpl in H. lia.
+    - (* no marker: nroot = length fs, so l2 is empty *)
+      exfalso. unfold nroot, root_count in Hlen1.
+      assert (length l2 = 0)%nat.
+      { unfold l2. rewrite skipn_length. unfold nroot, root_count. lia. }
+      destruct l2; [destruct Hp|discriminate]. }
+  rewrite H1, H2.
+  rewrite (sort_by_two_blocks field_cmp fst).
+  - rewrite map_app.
+    rewrite (sort_by_map ftag_cmp field_cmp (pair false)) by (intros; apply field_cmp_same_flag).
+    rewrite (sort_by_map ftag_cmp field_cmp (pair true)) by (intros; apply field_cmp_same_flag).
+    rewrite !map_map. cbn [snd]. rewrite !map_id.
+    unfold l1, l2. rewrite firstn_map, skipn_map. reflexivity.
+  - intros [b1 f1] [b2 f2]. cbn [fst]. intros -> ->. reflexivity.
+  - apply Forall_forall. intros p Hp. apply in_map_iff in Hp. destruct Hp as [? [<- _]]. reflexivity.
+  - apply Forall_forall. intros p Hp. apply in_map_iff in Hp. destruct Hp as [? [<- _]]. reflexivity.
+Qed.
+
+Lemma ftag_cmp_gt_le f g : ftag_cmp f g = Gt -> ftag_cmp g f <> Gt.
+Proof. unfold ftag_cmp. intros H. rewrite (otag_cmp_gt_lt _ _ H). discriminate. Qed.
+
+Theorem sort_fields_canonically_sorted fs ext out :
+  sort_fields_canonically fs ext = Ok out ->
+  let filled := map fill fs in
+  let nroot := root_count ext (length fs) in
+  exists roots adds,
+    out = roots ++ adds
+    /\ Permutation roots (firstn nroot filled) /\ Permutation adds (skipn nroot filled)
+    /\ Sorted ftag_le roots /\ Sorted ftag_le adds
+    /\ Permutation out filled
+    /\ Forall (fun f => exists t, rf_tag f = Some t) out.
+Proof.
+  intros H. destruct (sort_fields_canonically_shape _ _ _ H) as [Hout HF]. cbv zeta in *.
+  eexists _, _. split; [exact Hout|].
+  assert (HP : Permutation out (map fill fs)).
+  { rewrite Hout. rewrite <- (firstn_skipn (root_count ext (length fs)) (map fill fs)) at 3.
+    apply Permutation_app; apply sort_by_perm. }
+  repeat split.
+  - apply sort_by_perm.
+  - apply sort_by_perm.
+  - apply (sort_by_sorted ftag_cmp ftag_cmp_gt_le).
+  - apply (sort_by_sorted ftag_cmp ftag_cmp_gt_le).
+  - exact HP.
+  - rewrite Forall_forall in *. intros f Hf.
+    apply (Permutation_in _ HP) in Hf. apply in_map_iff in Hf. destruct Hf as [g [<- Hg]].
+    specialize (HF g Hg). unfold fill, with_tag. cbn [rf_tag]. destruct (sort_tag g); [eauto|congruence].
+Qed.
+
+(* the sort never fails on fields whose tag is known *)
+Lemma sort_fields_canonically_ok fs ext :
+  Forall (fun f => sort_tag f <> None) fs -> exists out, sort_fields_canonically fs ext = Ok out.
+Proof.
+  intros H. unfold sort_fields_canonically.
+  destruct (sort_prepare_ok ext (enumerate fs)) as [r ->]; [|simpl; eauto].
+  unfold enumerate. rewrite Forall_forall in *. intros p Hp. apply H.
+  rewrite <- (enumerate_from_snd O fs). apply in_map, Hp.
+Qed.
+
+(* stability of the sort on the key the code uses *)
+Definition key_eqb (a b : key) : bool := match key_cmp a b with Eq => true | _ => false end.
+Theorem field_sort_stable (k : key) l :
+  filter (fun a => key_eqb (field_key a) k) (sort_by field_cmp l)
+  = filter (fun a => key_eqb (field_key a) k) l.
+Proof.
+  apply sort_by_stable. intros a b Ha Hb. unfold key_eqb in *.
+  destruct (key_cmp (field_key a) k) eqn:Ea; try discriminate.
+  destruct (key_cmp (field_key b) k) eqn:Eb; try discriminate.
+  apply key_cmp_eq in Ea, Eb. unfold field_cmp. rewrite Ea, Eb, key_cmp_refl. discriminate.
+Qed.
+
+(* ------------------------------------------------------------------------- *)
+(** * assign_implicit_tags *)
+
+Lemma existsb_false_forall {A} (p : A -> bool) l : existsb p l = false -> Forall (fun a => p a = false) l.
+Proof.
+  induction l; simpl; intros H; constructor; apply orb_false_iff in H; tauto.
+Qed.
+
+Theorem assign_implicit_tags_spec fs :
+  (Exists (fun f => rf_tag f <> None) fs -> assign_implicit_tags fs = fs) /\
+  (Forall (fun f => rf_tag f = None) fs ->
+     map rf_tag (assign_implicit_tags fs)
+       = map (fun i => Some (ContextSpecific, N.of_nat i)) (seq 0 (length fs))
+     /\ map rf_idx (assign_implicit_tags fs) = map rf_idx fs
+     /\ map rf_ty (assign_implicit_tags fs) = map rf_ty fs).
+Proof.
+  unfold assign_implicit_tags. split.
+  - intros HE. apply Exists_exists in HE. destruct HE as [f [Hin Hf]].
+    assert (existsb (fun f => is_some (rf_tag f)) fs = true) as ->; [|reflexivity].
+    apply existsb_exists. exists f. split; [exact Hin|]. destruct (rf_tag f); [reflexivity|congruence].
+  - intros HF.
+    assert (existsb (fun f => is_some (rf_tag f)) fs = false) as ->.
+    { destruct (existsb _ fs) eqn:E; [|reflexivity]. apply existsb_exists in E.
+      destruct E as [f [Hin Hf]]. rewrite Forall_forall in HF. rewrite (HF f Hin) in Hf. discriminate. }
+    unfold enumerate. rewrite !map_map. cbn [with_tag rf_tag rf_idx rf_ty].
+    repeat split.
+    + rewrite <- (enumerate_from_fst 0 fs), map_map. reflexivity.
+    + rewrite <- (enumerate_from_snd 0 fs) at 2. rewrite map_map. reflexivity.
+    + rewrite <- (enumerate_from_snd 0 fs) at 2. rewrite map_map. reflexivity.
+Qed.
+
+Lemma assign_implicit_tags_length fs : length (assign_implicit_tags fs) = length fs.
+Proof.
+  unfold assign_implicit_tags. destruct (existsb _ fs); [reflexivity|].
+  rewrite map_length. unfold enumerate.
+  rewrite <- (map_length fst), enumerate_from_fst, seq_length. reflexivity.
+Qed.
+Lemma assign_implicit_tags_idx fs : map rf_idx (assign_implicit_tags fs) = map rf_idx fs.
+Proof.
+  unfold assign_implicit_tags. destruct (existsb _ fs); [reflexivity|].
+  unfold enumerate. rewrite map_map. cbn [with_tag rf_idx].
+  rewrite <- (enumerate_from_snd 0 fs) at 2. rewrite map_map. reflexivity.
+Qed.
+
+(* ------------------------------------------------------------------------- *)
+(** * effective tags *)
+
+(* the TAG constant differs from the tag the field is sorted by for exactly these untagged types *)
+Fixpoint tag_const_deviates (r : rty) : bool :=
+  match r with
+  | ROption i => tag_const_deviates i
+  | RDefault _ => true
+  | RBuiltin KSetOf => true
+  | _ => false
+  end.
+
+Lemma tag_const_tagged ty t : tag_const ty (Some t) = Ok t.
+Proof. induction ty; simpl; auto. Qed.
+
+Lemma tag_const_untagged ty t :
+  tag_const_deviates ty = false -> rty_tag ty = Some t -> tag_const ty None = Ok t.
+Proof.
+  induction ty as [k|o|i IH|i IH]; simpl; intros Hd Ht.
+  - inversion Ht; subst. destruct k; try reflexivity; discriminate.
+  - subst o. reflexivity.
+  - auto.
+  - discriminate.
+Qed.
+
+Theorem tag_const_is_sort_tag f t :
+  (rf_tag f <> None \/ tag_const_deviates (rf_ty f) = false) ->
+  sort_tag f = Some t -> tag_const (rf_ty f) (rf_tag f) = Ok t.
+Proof.
+  unfold sort_tag. intros Hk Hs. destruct (rf_tag f) as [t'|] eqn:E; simpl in Hs.
+  - inversion Hs; subst. apply tag_const_tagged.
+  - destruct Hk as [Hk|Hk]; [congruence|]. apply tag_const_untagged; assumption.
+Qed.
+
+(* to_rust: what a component's tag and type become *)
+Lemma type_to_rty_tag fuel e ty tg r :
+  type_to_rty fuel e ty tg = Ok r ->
+  match ty with
+  | TBuiltin k => r = RBuiltin k
+  | TRef rf => exists t, resolve_tag fuel e rf = Ok t /\ r = RComplex t
+  | TConstr _ | TChoice _ _ =>
+      match tg with
+      | Some _ => r = RComplex tg
+      | None => exists t, resolve_type_tag fuel e ty = Ok t /\ r = RComplex t
+      end
+  end.
+Proof.
+  destruct ty; simpl; intros H.
+  - inversion H. reflexivity.
+  - destruct tg; [inversion H; reflexivity|].
+    destruct (resolve_type_tag fuel e (TConstr k)) eqn:E; simpl in H; inversion H. eauto.
+  - destruct (resolve_tag fuel e r0) eqn:E; simpl in H; inversion H. eauto.
+  - destruct tg; [inversion H; reflexivity|].
+    destruct (resolve_type_tag fuel e (TChoice ext_after alts)) eqn:E; simpl in H; inversion H. eauto.
+Qed.
+
+Lemma type_to_rty_not_optional fuel e ty tg r : type_to_rty fuel e ty tg = Ok r -> is_optional r = false.
+Proof.
+  intros H. apply type_to_rty_tag in H. destruct ty.
+  - subst. reflexivity.
+  - destruct tg; [subst; reflexivity|destruct H as [? [_ ->]]; reflexivity].
+  - destruct H as [? [_ ->]]. reflexivity.
+  - destruct tg; [subst; reflexivity|destruct H as [? [_ ->]]; reflexivity].
+Qed.
+
+Lemma wrap_optional (b : bool) role :
+  is_optional (if b && negb (is_optional role) then ROption role else role) = b || is_optional role.
+Proof. destruct b, (is_optional role) eqn:E; simpl; auto. Qed.
+
+Lemma rty_tag_no_option r : rty_tag (no_option r) = rty_tag r.
+Proof. induction r; simpl; auto. Qed.
+
+(* the tag a component is sorted by: its own tag if it has one, else the tag of the referenced type for a
+   reference, else the universal tag of the built-in type *)
+Theorem comp_effective_tag fuel e ext i c f :
+  comp_to_rfield fuel e ext i c = Ok f ->
+  rf_idx f = i /\ rf_tag f = c_tag c /\
+  is_optional (rf_ty f) = (match c_pres c with Mandatory => is_addition ext i | _ => true end) /\
+  match c_tag c with
+  | Some t => sort_tag f = Some t
+  | None =>
+      match c_ty c with
+      | TBuiltin k => sort_tag f = Some (builtin_tag k)
+      | TRef rf => resolve_tag fuel e rf = Ok (sort_tag f)
+      | ty => resolve_type_tag fuel e ty = Ok (sort_tag f)
+      end
+  end.
+Proof.
+  unfold comp_to_rfield. intros H.
+  set (tg := c_tag c) in *.
+  destruct (c_pres c) eqn:EP.
+  - (* Mandatory *)
+    destruct (type_to_rty fuel e (c_ty c) tg) as [role| |] eqn:ER; simpl in H; try discriminate.
+    inversion H; subst f; clear H. cbn [rf_idx rf_tag rf_ty]. unfold sort_tag. cbn [rf_tag rf_ty].
+    split; [reflexivity|]. split; [reflexivity|]. split.
+    + rewrite wrap_optional, (type_to_rty_not_optional _ _ _ _ _ ER), orb_false_r. reflexivity.
+    + destruct tg as [t|] eqn:ET; [reflexivity|]. simpl.
+      apply type_to_rty_tag in ER.
+      assert (HT : forall r, rty_tag (if match ext with Some x => (x <? i)%nat | None => false end
+                                         && negb (is_optional r) then ROption r else r) = rty_tag r).
+      { intros r. destruct (_ && _); reflexivity. }
+      rewrite HT. destruct (c_ty c).
+      * subst. reflexivity.
+      * destruct ER as [t [Ht ->]]. exact Ht.
+      * destruct ER as [t [Ht ->]]. exact Ht.
+      * destruct ER as [t [Ht ->]]. exact Ht.
+  - (* Optional *)
+    destruct (match tg with Some _ => Ok tg | None => resolve_no_default fuel e (c_ty c) end)
+      as [tg'| |] eqn:EN; simpl in H; try discriminate.
+    destruct (type_to_rty fuel e (c_ty c) tg') as [role| |] eqn:ER; simpl in H; try discriminate.
+    inversion H; subst f; clear H. cbn [rf_idx rf_tag rf_ty]. unfold sort_tag. cbn [rf_tag rf_ty].
+    split; [reflexivity|]. split; [reflexivity|]. split.
+    + simpl. rewrite andb_false_r. reflexivity.
+    + destruct tg as [t|] eqn:ET; [reflexivity|]. simpl. rewrite andb_false_r. simpl.
+      apply type_to_rty_tag in ER. destruct (c_ty c) eqn:ECT.
+      * subst. reflexivity.
+      * (* inline constructed: resolve_no_default gives None or the resolved tag *)
+        unfold resolve_no_default, resolve_default in EN.
+        destruct (resolve_type_tag fuel [] (TConstr k)) as [d0| |] eqn:E0; simpl in EN; try discriminate.
+        destruct (resolve_type_tag fuel e (TConstr k)) as [r0| |] eqn:E1; simpl in EN; try discriminate.
+        inversion EN; subst tg'; clear EN.
+        destruct r0 as [rt|].
+        -- destruct (otag_eqb d0 (Some rt)).
+           ++ destruct ER as [t [Ht ->]]. exact Ht.
+           ++ subst role. reflexivity.
+        -- destruct ER as [t [Ht ->]]. exact Ht.
+      * destruct ER as [t [Ht ->]]. exact Ht.
+      * unfold resolve_no_default, resolve_default in EN.
+        destruct (resolve_type_tag fuel [] (TChoice ext_after alts)) as [d0| |] eqn:E0; simpl in EN; try discriminate.
+        destruct (resolve_type_tag fuel e (TChoice ext_after alts)) as [r0| |] eqn:E1; simpl in EN; try discriminate.
+        inversion EN; subst tg'; clear EN.
+        destruct r0 as [rt|].
+        -- destruct (otag_eqb d0 (Some rt)).
+           ++ destruct ER as [t [Ht ->]]. exact Ht.
+           ++ subst role. reflexivity.
+        -- destruct ER as [t [Ht ->]]. exact Ht.
+  - (* Default *)
+    destruct (type_to_rty fuel e (c_ty c) tg) as [role| |] eqn:ER; simpl in H; try discriminate.
+    inversion H; subst f; clear H. cbn [rf_idx rf_tag rf_ty]. unfold sort_tag. cbn [rf_tag rf_ty].
+    split; [reflexivity|]. split; [reflexivity|]. split; [reflexivity|].
+    destruct tg as [t|] eqn:ET; [reflexivity|]. simpl. rewrite rty_tag_no_option.
+    apply type_to_rty_tag in ER. destruct (c_ty c).
+    + subst. reflexivity.
+    + destruct ER as [t [Ht ->]]. exact Ht.
+    + destruct ER as [t [Ht ->]]. exact Ht.
+    + destruct ER as [t [Ht ->]]. exact Ht.
+Qed.
+
+Lemma comps_to_rfields_idx fuel e ext i cs fs :
+  comps_to_rfields fuel e ext i cs = Ok fs -> map rf_idx fs = seq i (length cs).
+Proof.
+  revert i fs. induction cs as [|c cs IH]; simpl; intros i fs H.
+  - inversion H. reflexivity.
+  - destruct (comp_to_rfield fuel e ext i c) as [f| |] eqn:E; simpl in H; try discriminate.
+    destruct (comps_to_rfields fuel e ext (S i) cs) as [fs'| |] eqn:E2; simpl in H; try discriminate.
+    inversion H; subst. simpl. f_equal.
+    + apply comp_effective_tag in E. tauto.
+    + apply IH, E2.
+Qed.
+
+(* CHOICE: the tag an untagged CHOICE is ordered by is the smallest tag among its root alternatives *)
+Lemma hd_sort_min (ts : list tag) t :
+  hd_error (sort_by tag_cmp ts) = Some t -> In t ts /\ Forall (fun u => tag_le t u = true) ts.
+Proof.
+  intros H.
+  assert (HS : Sorted (cle tag_cmp) (sort_by tag_cmp ts)).
+  { apply sort_by_sorted. intros a b Hgt. rewrite (tag_cmp_gt_lt _ _ Hgt). discriminate. }
+  assert (HSS : StronglySorted (cle tag_cmp) (sort_by tag_cmp ts)).
+  { apply Sorted_StronglySorted; [|exact HS].
+    intros a b c. unfold cle. intros Hab Hbc Hac.
+    pose proof (tag_cmp_spec a b) as Sab. pose proof (tag_cmp_spec b c) as Sbc.
+    pose proof (tag_cmp_spec a c) as Sac. rewrite Hac in Sac.
+    assert (Lab : x680_le a b) by (apply tag_le_is_x680_le; unfold tag_le; destruct (tag_cmp a b); auto; congruence).
+    assert (Lbc : x680_le b c) by (apply tag_le_is_x680_le; unfold tag_le; destruct (tag_cmp b c); auto; congruence).
+    clear Sab Sbc. unfold x680_le, x680_lt in *.
+    destruct a as [ca na], b as [cb nb], c as [cc nc]. cbn [fst snd] in *.
+    destruct Lab as [[?|[? ?]]|Lab], Lbc as [[?|[? ?]]|Lbc], Sac as [?|[? ?]];
+      try (inversion Lab; subst); try (inversion Lbc; subst); subst; try lia. }
+  destruct (sort_by tag_cmp ts) as [|t' l] eqn:E; simpl in H; [discriminate|]. inversion H; subst t'.
+  pose proof (sort_by_perm tag_cmp ts) as HP. rewrite E in HP. split.
+  - apply (Permutation_in _ HP). left. reflexivity.
+  - inversion HSS as [|? ? _ Hall]; subst. rewrite Forall_forall in *. intros u Hu.
+    apply Permutation_sym in HP. apply (Permutation_in _ HP) in Hu. destruct Hu as [<-|Hu].
+    + unfold tag_le. rewrite tag_cmp_refl. reflexivity.
+    + specialize (Hall u Hu). unfold cle in Hall. unfold tag_le. destruct (tag_cmp t u); auto; congruence.
+Qed.
+
+(* ------------------------------------------------------------------------- *)
+(** * write_constraints *)
+
+Theorem write_constraints_keep own fs ext l :
+  write_constraints Keep own fs ext = Ok l ->
+  l_wire l = assign_implicit_tags fs /\ map rf_idx (l_wire l) = map rf_idx fs.
+Proof.
+  unfold write_constraints. intros H.
+  destruct (tag_consts (assign_implicit_tags fs)) as [cs| |]; simpl in H; try discriminate.
+  inversion H; subst l. cbn [l_wire]. split; [reflexivity|apply assign_implicit_tags_idx].
+Qed.
+
+Lemma take_while_index_le_firstn bound {l : list rfield} i :
+  map snd (take_while_index_le bound (enumerate_from i l))
+  = firstn (match bound with Some b => S b - i | None => length l end) l.
+Proof.
+  revert i. induction l as [|f l IH]; intros i.
+  - simpl. rewrite firstn_nil. reflexivity.
+  - cbn [enumerate_from take_while_index_le]. destruct bound as [b|].
+    + destruct (Nat.leb_spec i b).
+      * cbn [map snd]. rewrite IH. replace (S b - i)%nat with (S (S b - S i))%nat by lia. reflexivity.
+      * replace (S b - i)%nat with O by lia. reflexivity.
+    + cbn [map snd length]. rewrite IH. reflexivity.
+Qed.
+
+(* STD_OPTIONAL_FIELDS counts the optional fields among the first root_count fields of the wire order:
+   the presence bits are the optional root fields, in wire order *)
+Definition presence_fields (wire : list rfield) (ext_after : option nat) : list rfield :=
+  filter (fun f => is_optional (rf_ty f)) (firstn (root_count ext_after (length wire)) wire).
+
+Theorem std_optional_fields_spec wire ext :
+  std_optional_fields wire ext = length (presence_fields wire ext).
+Proof.
+  unfold std_optional_fields, presence_fields, enumerate.
+  rewrite <- (map_length snd).
+  assert (HF : forall l : list (nat * rfield),
+             map snd (filter (fun p => is_optional (rf_ty (snd p))) l)
+             = filter (fun f => is_optional (rf_ty f)) (map snd l)).
+  { induction l as [|p l IH]; simpl; [reflexivity|]. destruct (is_optional _); simpl; congruence. }
+  rewrite HF, take_while_index_le_firstn. f_equal. f_equal.
+  unfold root_count. destruct ext as [b|]; [|rewrite firstn_all; reflexivity].
+  rewrite Nat.sub_0_r. destruct (Nat.le_ge_cases (S b) (length wire)).
+  - rewrite Nat.min_l by assumption. reflexivity.
+  - rewrite Nat.min_r by assumption. rewrite firstn_all, firstn_all2 by assumption. reflexivity.
+Qed.
+
+Lemma write_constraints_consts o own fs ext l :
+  write_constraints o own fs ext = Ok l ->
+  l_std_optional l = length (presence_fields (l_wire l) ext) /\ l_extended_after l = ext /\
+  l_own l = match own with Some t => t | None => tag_of_code DEFAULT_SEQUENCE end /\
+  match o with
+  | Keep => l_wire l = assign_implicit_tags fs
+  | Sort => sort_fields_canonically (assign_implicit_tags fs) ext = Ok (l_wire l)
+  end.
+Proof.
+  unfold write_constraints. intros H.
+  destruct (tag_consts (assign_implicit_tags fs)) as [cs| |]; simpl in H; try discriminate.
+  destruct o.
+  - simpl in H. inversion H; subst l. cbn [l_std_optional l_extended_after l_own l_wire].
+    rewrite std_optional_fields_spec. auto.
+  - destruct (sort_fields_canonically (assign_implicit_tags fs) ext) as [w| |]; simpl in H; try discriminate.
+    inversion H; subst l. cbn [l_std_optional l_extended_after l_own l_wire].
+    rewrite std_optional_fields_spec. auto.
+Qed.
+
+(* additions whose tags already ascend in textual order stay in textual order *)
+Theorem sort_fields_canonically_additions_textual fs ext out :
+  sort_fields_canonically fs ext = Ok out ->
+  let filled := map fill fs in
+  let nroot := root_count ext (length fs) in
+  Sorted ftag_le (skipn nroot filled) ->
+  out = sort_by ftag_cmp (firstn nroot filled) ++ skipn nroot filled.
+Proof.
+  intros H filled nroot HS. destruct (sort_fields_canonically_shape _ _ _ H) as [-> _].
+  fold filled nroot. f_equal. apply sort_by_id. exact HS.
+Qed.
+
+(* the attribute round trip hands the fields back unchanged *)
+Lemma reparse_fields fields en r : reparse fields en = Ok r -> fst r = fields.
+Proof. unfold reparse. destruct (existsb _ fields); intros H; inversion H. reflexivity. Qed.
+
+Theorem layout_of_sequence_textual d l :
+  s_set d = false -> layout_of d = Ok l -> map rf_idx (l_wire l) = seq 0 (length (s_comps d)).
+Proof.
+  unfold layout_of. intros Hs H. rewrite Hs in H.
+  destruct (comps_to_rfields _ _ _ _ _) as [fields| |] eqn:E1; simpl in H; try discriminate.
+  destruct (attr_extensible_after fields _) as [en| |] eqn:E2; simpl in H; try discriminate.
+  destruct (reparse fields en) as [back| |] eqn:E3; simpl in H; try discriminate.
+  apply write_constraints_keep in H. destruct H as [_ H]. rewrite H.
+  rewrite (reparse_fields _ _ _ E3). apply (comps_to_rfields_idx _ _ _ _ _ _ E1).
+Qed.
+
+(* with at least one component in front of the marker the root fields are exactly those components *)
+Lemma root_count_marker p n : p <> O -> root_count (ext_after_of_marker (Some p)) n = Nat.min p n.
+Proof. intros Hp. unfold root_count, ext_after_of_marker. destruct p; [congruence|]. reflexivity. Qed.
